@@ -8,13 +8,15 @@
    Fragment: literals (operand-encoded or from the constant pool), global variables, locals and value formals
    (frame words), + and - nested to any depth on both sides (right operands that need areg are spilled to frame
    temporaries), =, < (with xcmp's special cases for a literal zero), ~, and/or (short circuit), all with the
-   generated labels and branches.  Not in the fragment: calls, system calls, subscripts, strings.
+   generated labels and branches, and subscripts a[e] of the arrays in scope (aenv: the word holding the address of
+   the cells; constant subscript: LDAI c, otherwise index + base and LDAI 0).  Not in the fragment: calls, system
+   calls, strings.
 
    cg_correct: if XSem evaluates e to n in a state related to the machine memory, then the generated code, run
    from its first byte, ends just behind the code with n mod 2^32 in the requested register, the operand register
    clear, and a memory that differs from the initial one only in frame temporaries at or above the current
    frame offset -- for every nesting depth. *)
-From Coq Require Import ZArith List String Bool Lia.
+From Coq Require Import ZArith List String Bool Lia FMapPositive.
 From HexVerif Require Import WMap Isa XAst XSem XCodegenIsa XCodegenInv.
 Import ListNotations.
 Local Open Scope Z_scope.
@@ -54,6 +56,7 @@ Section Codegen.
   Variable pool : Z -> option Z.             (* word address of a constant-pool entry *)
   Variable size : Z.                         (* frame size of the procedure *)
   Variable nslots : Z.                       (* frame offsets below nslots are usable *)
+  Variable aenv : string -> option loc.      (* the arrays in scope: the word that holds the address of the cells *)
 
   (* genConst *)
   Definition gen_const (r : reg) (v : Z) : option (list instr) :=
@@ -82,6 +85,17 @@ Section Codegen.
     | ENum _ => do v <- lit_of e; do c <- gen_const r v; Some (c, n)
     | EBool _ => do v <- lit_of e; do c <- gen_const r v; Some (c, n)
     | EVar x => do l <- venv x; Some (gen_var r l, n)
+    | ESub a i =>
+        (* ArraySubscriptExpr: a constant subscript is an operand of LDAI, otherwise index + base; always into areg *)
+        match r with
+        | RB => None
+        | RA =>
+            do l <- aenv a;
+            match lit_of i with
+            | Some c => Some (gen_var RA l ++ [LDAI c], n)
+            | None => do (ci, n1) <- cg i RA n off; Some (ci ++ gen_var RB l ++ [ADD; LDAI 0], n1)
+            end
+        end
     | EUn Not a =>
         match r with
         | RA => do (c, n1) <- cg a RA (n + 2) off; Some (c ++ bool_tail BRZ n, n1)
@@ -141,6 +155,7 @@ Section Correct.
   Variable venv : string -> option loc.
   Variable pool : Z -> option Z.
   Variables size nslots : Z.
+  Variable aenv : string -> option loc.
   Variable ge : genv.
   Variable P : Z -> Prop.               (* the words that are never stored to: code and constant pool *)
   Variable m0 : WMap.t.                 (* the loaded image *)
@@ -165,6 +180,9 @@ Section Correct.
   Hypothesis Hpool : forall v a, pool v = Some a -> P a /\ in_mem a = true /\ rd m0 a = v mod W.
   Hypothesis Hglob : forall x a, venv x = Some (LGlobal a) -> in_mem a = true /\ ~ T a.
   Hypothesis Hframe : forall x k, venv x = Some (LFrame k) -> in_mem (sp + k) = true /\ ~ T (sp + k).
+  (* the word that holds an array's address *)
+  Definition waddr (l : loc) : Z := match l with LGlobal a => a | LFrame k => sp + k end.
+  Hypothesis Harr : forall a l, aenv a = Some l -> in_mem (waddr l) = true /\ ~ T (waddr l).
 
   Lemma keeps_refl off m : keeps off m m. Proof. intros a _ _. reflexivity. Qed.
   Lemma keeps_trans off m1 m2 m3 : keeps off m1 m2 -> keeps off m2 m3 -> keeps off m1 m3.
@@ -211,6 +229,32 @@ Section Correct.
     intros (Hg & Hs & _) [H1 H2]. unfold vars_ok, top in *. rewrite Hg, Hs. split; assumption.
   Qed.
 
+  (* the name a denotes the global array g in the state: it is a global array no local name hides, or an array
+     formal bound to g *)
+  Definition resolves (st : state) (a g : string) : Prop :=
+    assoc a (f_vars (top st)) = Some (Varr g) \/
+    (assoc a (f_vars (top st)) = None /\ assoc a (f_vals (top st)) = None /\ assoc a (garrs st) <> None /\ g = a).
+  Lemma resolves_array st a g : resolves st a g -> resolve_array ge a st = Ret (Varr g) st.
+  Proof.
+    unfold resolve_array. intros [H|(H1 & H2 & H3 & ->)]; [rewrite H; reflexivity|].
+    rewrite H1, H2. destruct (assoc a (garrs st)); [reflexivity | exfalso; apply H3; reflexivity].
+  Qed.
+  Lemma resolves_same st st' a g : same_store st st' -> resolves st a g -> resolves st' a g.
+  Proof. intros (_ & Hs & Ha & _). unfold resolves, top. rewrite Hs, Ha. trivial. Qed.
+  (* the arrays in scope: the word of the name holds the address of the cells of the array it denotes; the cells lie
+     in memory outside the temporaries and hold the values of the assigned elements *)
+  Definition arrays_ok (st : state) : Prop :=
+    forall a l, aenv a = Some l ->
+      exists g ar base, resolves st a g /\ assoc g (garrs st) = Some ar /\ rd mr (waddr l) = base /\
+        (forall i, 0 <= i < alen ar -> in_mem (base + i) = true /\ ~ T (base + i)) /\
+        (forall i n, 0 <= i < alen ar -> PositiveMap.find (cell i) (acells ar) = Some (Vint n) ->
+                     in_int n = true /\ rd mr (base + i) = n mod W).
+  Lemma arrays_ok_same st st' : same_store st st' -> arrays_ok st -> arrays_ok st'.
+  Proof.
+    intros Hs H a l Hal. destruct (H a l Hal) as (g & ar & base & H1 & H2 & H3).
+    exists g, ar, base. split; [exact (resolves_same _ _ _ _ Hs H1)|]. destruct Hs as (_ & _ & Ha & _). rewrite Ha. exact (conj H2 H3).
+  Qed.
+
   (* what the code must leave in the requested register (as a machine word w), from any admissible memory *)
   Definition lands (r : reg) (code : list instr) (w off : Z) : Prop :=
     forall m pos nxt a b inp, K m -> code_at C lab pos code nxt -> 0 <= pos -> nxt < W ->
@@ -239,20 +283,18 @@ Section Correct.
       + rewrite <- Hm. exact (exec_instr C lab m pos nxt (LDBM pa) a b inp eq_refl Hi HC Hin Hn).
   Qed.
 
-  Lemma lands_var r x l w off : venv x = Some l ->
-    match l with LGlobal a => rd mr a = w | LFrame k => rd mr (sp + k) = w end ->
-    lands r (gen_var r l) w off.
+  Lemma lands_var_gen r l w off : in_mem (waddr l) = true -> ~ T (waddr l) -> rd mr (waddr l) = w -> lands r (gen_var r l) w off.
   Proof.
-    intros Hx Hw m pos nxt a b inp HK Hc Hp Hn. pose proof (K_C m HK) as HC.
-    destruct l as [ga|k]; cbn [gen_var] in Hc.
-    - destruct (Hglob x ga Hx) as [Hin HnT].
+    intros Hin0 HnT0 Hw m pos nxt a b inp HK Hc Hp Hn. pose proof (K_C m HK) as HC.
+    destruct l as [ga|k]; cbn [gen_var waddr] in *.
+    - pose proof Hin0 as Hin. pose proof HnT0 as HnT.
       assert (Hm : rd m ga = w) by (rewrite (HK ga (proj1 (in_mem_range ga Hin)) HnT); exact Hw).
       one_instr Hc mid Hi. subst mid.
       destruct r; cbn [ldm] in Hi.
       + exists b, m. split; [|apply keeps_refl]. rewrite <- Hm.
         exact (exec_instr C lab m pos nxt (LDAM ga) a b inp eq_refl Hi HC Hin Hn).
       + rewrite <- Hm. exact (exec_instr C lab m pos nxt (LDBM ga) a b inp eq_refl Hi HC Hin Hn).
-    - destruct (Hframe x k Hx) as [Hin HnT].
+    - pose proof Hin0 as Hin. pose proof HnT0 as HnT.
       assert (Hm : rd m (sp + k) = w) by (rewrite (HK (sp + k) (proj1 (in_mem_range _ Hin)) HnT); exact Hw).
       destruct r.
       + one_instr Hc p1 Hi1. one_instr Hc p2 Hi2. subst p2.
@@ -271,6 +313,15 @@ Section Correct.
         pose proof (exec_instr C lab m p1 nxt (LDBI k) a sp inp eq_refl Hi2 HC R2 Hn) as T2.
         cbn [sem fst snd] in T2. rewrite (in_mem_wrap _ Hin), Hm in T2.
         eapply taus_trans; eassumption.
+  Qed.
+
+  Lemma lands_var r x l w off : venv x = Some l ->
+    match l with LGlobal a => rd mr a = w | LFrame k => rd mr (sp + k) = w end ->
+    lands r (gen_var r l) w off.
+  Proof.
+    intros Hx Hw. destruct l as [ga|k].
+    - destruct (Hglob x ga Hx) as [Hin HnT]. apply lands_var_gen; assumption.
+    - destruct (Hframe x k Hx) as [Hin HnT]. apply lands_var_gen; assumption.
   Qed.
 
   (* the operator after its operands *)
@@ -499,9 +550,20 @@ Section Correct.
   Qed.
 
   (* ---- expressions of the fragment do not change the store *)
+  Lemma read_elem_arr g a n s1 v s : read_elem (Varr g) a n s1 = Ret v s ->
+    exists ar vn, assoc g (garrs s1) = Some ar /\ 0 <= n < alen ar /\
+                  PositiveMap.find (cell n) (acells ar) = Some (Vint vn) /\ v = Vint vn /\ s = note_rd g s1.
+  Proof.
+    unfold read_elem. intros H. destruct (assoc g (garrs s1)) as [ar|]; [|discriminate].
+    destruct ((0 <=? n) && (n <? alen ar)) eqn:Eb; [|discriminate]. apply andb_prop in Eb. destruct Eb as [E1 E2].
+    apply Z.leb_le in E1. apply Z.ltb_lt in E2.
+    destruct (PositiveMap.find (cell n) (acells ar)) as [[|vn| |]|] eqn:Ef; try discriminate. inversion H; subst.
+    exists ar, vn. repeat split; try assumption; lia.
+  Qed.
+
   Lemma eval_pure : forall e, pure e = true -> forall f st v s, eval f ge e st = Ret v s -> same_store st s.
   Proof.
-    induction e as [n0|b0|bs|x|a i|g args|n0 args|u e IHe|o l IHl rr IHr]; intros Hp f st v s He; cbn [pure] in Hp; try discriminate.
+    induction e as [n0|b0|bs|x|a i IHi|g args|n0 args|u e IHe|o l IHl rr IHr]; intros Hp f st v s He; cbn [pure] in Hp; try discriminate.
     - destruct (eval_num _ _ _ _ _ _ He) as [_ ->]. apply same_store_refl.
     - destruct (eval_bool _ _ _ _ _ _ He) as [_ ->]. apply same_store_refl.
     - apply eval_var in He. unfold read_var in He.
@@ -510,6 +572,13 @@ Section Correct.
       destruct (assoc x (g_vals ge)); [inversion He; apply same_store_refl|].
       destruct (assoc x (gvars st)) as [[| | |]|]; try discriminate; try (inversion He; apply same_store_note_rd).
       destruct (assoc x (garrs st)); [inversion He; apply same_store_refl | discriminate].
+    - (* subscript *)
+      destruct (eval_sub _ _ _ _ _ _ _ He) as (f1 & av & n & s1 & _ & Hi & Hr).
+      eapply same_store_trans; [exact (IHi Hp _ _ _ _ Hi)|].
+      destruct av as [| |g|ws]; try discriminate Hr.
+      + destruct (read_elem_arr _ _ _ _ _ _ Hr) as (ar & vn & _ & _ & _ & _ & ->). apply same_store_note_rd.
+      + unfold read_elem in Hr. destruct ((0 <=? n) && (n <? Z.of_nat (List.length ws))); [|discriminate].
+        inversion Hr; subst. apply same_store_refl.
     - destruct u.
       + destruct f as [|f0]; [discriminate|]. cbn [eval eval_body] in He.
         apply bind_ret in He. destruct He as (va & s1 & H1 & H).
@@ -530,47 +599,52 @@ Section Correct.
         eapply same_store_trans; [exact S1|]. eapply same_store_trans; [eapply IHr; eassumption | exact S2].
   Qed.
 
-  Lemma cg_pure : forall e r n off res, cg venv pool size nslots e r n off = Some res -> pure e = true.
+  Lemma cg_pure : forall e r n off res, cg venv pool size nslots aenv e r n off = Some res -> pure e = true.
   Proof.
-    induction e as [n0|b0|bs|x|a i|g args|n0 args|u e IHe|o l IHl rr IHr]; intros r n off res Hcg; cbn [cg] in Hcg; try discriminate; try reflexivity.
+    induction e as [n0|b0|bs|x|a i IHi|g args|n0 args|u e IHe|o l IHl rr IHr]; intros r n off res Hcg; cbn [cg] in Hcg; try discriminate; try reflexivity.
+    - (* subscript *)
+      destruct r; [|discriminate]. destruct (aenv a) as [la|]; [|discriminate]. cbn [obind pure] in *.
+      destruct (lit_of i) as [c|] eqn:El.
+      + destruct i; cbn [lit_of] in El; try discriminate; reflexivity.
+      + destruct (cg venv pool size nslots aenv i RA n off) as [p|] eqn:Ec; [|discriminate]. eapply IHi; exact Ec.
     - destruct u; [discriminate|]. destruct r; [|discriminate].
-      destruct (cg venv pool size nslots e RA (n + 2) off) as [p|] eqn:Ec; [|discriminate]. cbn [pure]. eapply IHe; exact Ec.
+      destruct (cg venv pool size nslots aenv e RA (n + 2) off) as [p|] eqn:Ec; [|discriminate]. cbn [pure]. eapply IHe; exact Ec.
     - destruct r; [|discriminate]. cbn [pure].
-      assert (Har : forall opi n0 res0, arith_code size nslots opi (simple rr) (cg venv pool size nslots l RA) (cg venv pool size nslots rr RA)
-                           (cg venv pool size nslots rr RB) n0 off = Some res0 -> pure l && pure rr = true).
+      assert (Har : forall opi n0 res0, arith_code size nslots opi (simple rr) (cg venv pool size nslots aenv l RA) (cg venv pool size nslots aenv rr RA)
+                           (cg venv pool size nslots aenv rr RB) n0 off = Some res0 -> pure l && pure rr = true).
       { intros opi n0 res0 Hc. unfold arith_code in Hc. destruct (simple rr).
-        - destruct (cg venv pool size nslots l RA n0 off) as [[cl n1]|] eqn:El; [|discriminate]. cbn [obind] in Hc.
-          destruct (cg venv pool size nslots rr RB n1 off) as [p|] eqn:Er; [|discriminate].
+        - destruct (cg venv pool size nslots aenv l RA n0 off) as [[cl n1]|] eqn:El; [|discriminate]. cbn [obind] in Hc.
+          destruct (cg venv pool size nslots aenv rr RB n1 off) as [p|] eqn:Er; [|discriminate].
           rewrite (IHl _ _ _ _ El), (IHr _ _ _ _ Er). reflexivity.
         - destruct ((0 <=? off) && (off <? nslots)); [|discriminate].
-          destruct (cg venv pool size nslots rr RA n0 off) as [[cr n1]|] eqn:Er; [|discriminate]. cbn [obind] in Hc.
-          destruct (cg venv pool size nslots l RA n1 (off + 1)) as [p|] eqn:El; [|discriminate].
+          destruct (cg venv pool size nslots aenv rr RA n0 off) as [[cr n1]|] eqn:Er; [|discriminate]. cbn [obind] in Hc.
+          destruct (cg venv pool size nslots aenv l RA n1 (off + 1)) as [p|] eqn:El; [|discriminate].
           rewrite (IHl _ _ _ _ El), (IHr _ _ _ _ Er). reflexivity. }
       assert (Hz : forall e0, is_zero e0 = true -> pure e0 = true).
       { intros e0. unfold is_zero, lit_of. destruct e0; try discriminate; reflexivity. }
       destruct o; try discriminate.
       + eapply Har; exact Hcg.
       + eapply Har; exact Hcg.
-      + destruct (cg venv pool size nslots l RA (n + 2) off) as [[cl n1]|] eqn:El; [|discriminate]. cbn [obind] in Hcg.
-        destruct (cg venv pool size nslots rr RA n1 off) as [p|] eqn:Er; [|discriminate].
+      + destruct (cg venv pool size nslots aenv l RA (n + 2) off) as [[cl n1]|] eqn:El; [|discriminate]. cbn [obind] in Hcg.
+        destruct (cg venv pool size nslots aenv rr RA n1 off) as [p|] eqn:Er; [|discriminate].
         rewrite (IHl _ _ _ _ El), (IHr _ _ _ _ Er). reflexivity.
-      + destruct (cg venv pool size nslots l RA (n + 1) off) as [[cl n1]|] eqn:El; [|discriminate]. cbn [obind] in Hcg.
-        destruct (cg venv pool size nslots rr RA n1 off) as [p|] eqn:Er; [|discriminate].
+      + destruct (cg venv pool size nslots aenv l RA (n + 1) off) as [[cl n1]|] eqn:El; [|discriminate]. cbn [obind] in Hcg.
+        destruct (cg venv pool size nslots aenv rr RA n1 off) as [p|] eqn:Er; [|discriminate].
         rewrite (IHl _ _ _ _ El), (IHr _ _ _ _ Er). reflexivity.
       + destruct (is_zero l) eqn:Zl.
-        * destruct (cg venv pool size nslots rr RA n off) as [p|] eqn:Er; [|discriminate].
+        * destruct (cg venv pool size nslots aenv rr RA n off) as [p|] eqn:Er; [|discriminate].
           rewrite (Hz l Zl), (IHr _ _ _ _ Er). reflexivity.
         * destruct (is_zero rr) eqn:Zr.
-          -- destruct (cg venv pool size nslots l RA n off) as [p|] eqn:El; [|discriminate].
+          -- destruct (cg venv pool size nslots aenv l RA n off) as [p|] eqn:El; [|discriminate].
              rewrite (Hz rr Zr), (IHl _ _ _ _ El). reflexivity.
-          -- destruct (arith_code size nslots SUB (simple rr) (cg venv pool size nslots l RA) (cg venv pool size nslots rr RA)
-                                  (cg venv pool size nslots rr RB) n off) as [p|] eqn:Ea; [|discriminate].
+          -- destruct (arith_code size nslots SUB (simple rr) (cg venv pool size nslots aenv l RA) (cg venv pool size nslots aenv rr RA)
+                                  (cg venv pool size nslots aenv rr RB) n off) as [p|] eqn:Ea; [|discriminate].
              eapply Har; exact Ea.
       + destruct (is_zero rr) eqn:Zr.
-        * destruct (cg venv pool size nslots l RA n off) as [p|] eqn:El; [|discriminate].
+        * destruct (cg venv pool size nslots aenv l RA n off) as [p|] eqn:El; [|discriminate].
           rewrite (Hz rr Zr), (IHl _ _ _ _ El). reflexivity.
-        * destruct (arith_code size nslots SUB (simple rr) (cg venv pool size nslots l RA) (cg venv pool size nslots rr RA)
-                               (cg venv pool size nslots rr RB) n off) as [p|] eqn:Ea; [|discriminate].
+        * destruct (arith_code size nslots SUB (simple rr) (cg venv pool size nslots aenv l RA) (cg venv pool size nslots aenv rr RA)
+                               (cg venv pool size nslots aenv rr RB) n off) as [p|] eqn:Ea; [|discriminate].
           eapply Har; exact Ea.
   Qed.
 
@@ -587,11 +661,11 @@ Section Correct.
   Qed.
 
   (* ---- the main theorem *)
-  Theorem cg_correct : forall e r n off code n', cg venv pool size nslots e r n off = Some (code, n') -> off0 <= off ->
-    forall f st v s, eval f ge e st = Ret v s -> vars_ok st ->
+  Theorem cg_correct : forall e r n off code n', cg venv pool size nslots aenv e r n off = Some (code, n') -> off0 <= off ->
+    forall f st v s, eval f ge e st = Ret v s -> vars_ok st -> arrays_ok st ->
     exists z, v = Vint z /\ in_int z = true /\ lands r code (z mod W) off.
   Proof.
-    induction e as [n0|b0|bs|x|a i|g args|n0 args|u e IHe|o l IHl rr IHr]; intros r n off code n' Hcg Hoff f st v s He Hv;
+    induction e as [n0|b0|bs|x|a i IHi|g args|n0 args|u e IHe|o l IHl rr IHr]; intros r n off code n' Hcg Hoff f st v s He Hv Ha;
       pose proof (cg_pure _ _ _ _ _ Hcg) as Hpure; cbn [cg] in Hcg; try discriminate.
     - (* number *)
       cbn [lit_of obind] in Hcg. destruct (gen_const pool r (signed32 n0)) as [c|] eqn:Eg; [|discriminate]. cbn [obind] in Hcg.
@@ -611,12 +685,66 @@ Section Correct.
       + destruct (Hf x k Ex) as (w & H5 & H6). rewrite H5 in He.
         destruct H6 as [->|(z & -> & Hz & Hw)]; [discriminate|]. inversion He; subst v s.
         exists z. repeat split; [exact Hz|]. eapply lands_var; [exact Ex | exact Hw].
+    - (* subscript *)
+      destruct r; [|discriminate]. destruct (aenv a) as [la|] eqn:Ea; [|discriminate]. cbn [obind] in Hcg.
+      cbn [pure] in Hpure.
+      destruct (eval_sub _ _ _ _ _ _ _ He) as (f1 & av & ix & s1 & Hres & Hi & Hr).
+      pose proof (arrays_ok_same _ _ (eval_pure i Hpure _ _ _ _ Hi) Ha) as Ha1.
+      destruct (Ha a la Ea) as (g & _ & _ & Hres0 & _). rewrite (resolves_array st a g Hres0) in Hres. inversion Hres; subst av.
+      destruct (read_elem_arr _ _ _ _ _ _ Hr) as (ar & vn & Har & Hix & Hcell & -> & ->).
+      destruct (Ha1 a la Ea) as (g' & ar' & base & Hres1 & Har' & Hbase & Hreg & Hval).
+      assert (g' = g).
+      { pose proof (resolves_same _ _ _ _ (eval_pure i Hpure _ _ _ _ Hi) Hres0) as Hr0.
+        pose proof (resolves_array _ _ _ Hr0) as E0. pose proof (resolves_array _ _ _ Hres1) as E1. rewrite E0 in E1. inversion E1. reflexivity. }
+      subst g'. rewrite Har in Har'. inversion Har'; subst ar'.
+      destruct (Hreg ix Hix) as [Hin HnT]. destruct (Hval ix vn Hix Hcell) as [Hvn Hrd].
+      destruct (Harr a la Ea) as [Hwin HwnT].
+      exists vn. split; [reflexivity|]. split; [exact Hvn|].
+      destruct (lit_of i) as [c|] eqn:El.
+      + (* a constant subscript: base into areg, LDAI c *)
+        inversion Hcg; subst code n'.
+        pose proof (lit_eval i c _ _ _ _ El Hi) as Hc. inversion Hc; subst c.
+        pose proof (lands_var_gen RA la base off Hwin HwnT Hbase) as Lb.
+        intros m pos nxt a0 b0 inp HK Hc0 Hp Hn. apply code_at_app in Hc0. destruct Hc0 as (p1 & Hc1 & Hc2).
+        one_instr Hc2 p2 Hi2. subst p2. pose proof (instr_at_le _ _ _ _ _ Hi2) as L2.
+        destruct (Lb m pos p1 a0 b0 inp HK Hc1 Hp ltac:(lia)) as (b1 & m1 & T1 & K1).
+        assert (HK1 : K m1) by exact (K_keeps off m m1 Hoff HK K1).
+        assert (R2 : readable (LDAI ix) base b1) by (cbn [readable]; rewrite (in_mem_wrap _ Hin); exact Hin).
+        pose proof (exec_instr C lab m1 p1 nxt (LDAI ix) base b1 inp eq_refl Hi2 (K_C m1 HK1) R2 Hn) as T2.
+        cbn [sem fst snd] in T2. rewrite (in_mem_wrap _ Hin) in T2.
+        rewrite (HK1 (base + ix) (proj1 (in_mem_range _ Hin)) HnT), Hrd in T2.
+        exists b1, m1. split; [eapply taus_trans; eassumption | exact K1].
+      + (* index into areg, base into breg, ADD, LDAI 0 *)
+        destruct (cg venv pool size nslots aenv i RA n off) as [[ci n1]|] eqn:Ec; [|discriminate]. cbn [obind] in Hcg.
+        inversion Hcg; subst code n'.
+        destruct (IHi RA n off ci n1 Ec Hoff f1 st _ s1 Hi Hv Ha) as (z & Hz & Hzr & Li). inversion Hz; subst z.
+        pose proof (lands_var_gen RB la base off Hwin HwnT Hbase) as Lb.
+        intros m pos nxt a0 b0 inp HK Hc0 Hp Hn. apply code_at_app in Hc0. destruct Hc0 as (p1 & Hc1 & Hc0).
+        apply code_at_app in Hc0. destruct Hc0 as (p2 & Hc2 & Hc3). one_instr Hc3 p3 Hi3. one_instr Hc3 p4 Hi4. subst p4.
+        pose proof (code_at_le C lab _ _ _ Hc1) as L1. pose proof (code_at_le C lab _ _ _ Hc2) as L2.
+        pose proof (instr_at_le _ _ _ _ _ Hi3) as L3. pose proof (instr_at_le _ _ _ _ _ Hi4) as L4.
+        destruct (Li m pos p1 a0 b0 inp HK Hc1 Hp ltac:(lia)) as (b1 & m1 & T1 & K1).
+        assert (HK1 : K m1) by exact (K_keeps off m m1 Hoff HK K1).
+        pose proof (Lb m1 p1 p2 (ix mod W) b1 inp HK1 Hc2 ltac:(lia) ltac:(lia)) as T2.
+        pose proof (exec_instr C lab m1 p2 p3 ADD (ix mod W) base inp eq_refl Hi3 (K_C m1 HK1) I ltac:(lia)) as T3.
+        cbn [sem fst snd] in T3.
+        assert (Hixw : ix mod W = ix).
+        { apply Z.mod_small. pose proof (in_mem_range _ Hin) as Hr1. destruct (Hreg 0 ltac:(lia)) as [Hin0 _].
+          pose proof (in_mem_range _ Hin0) as Hr0. unfold MEMW, W in *. lia. }
+        rewrite Hixw in T1, T2, T3. replace (ix + base) with (base + ix) in T3 by lia. rewrite (in_mem_wrap _ Hin) in T3.
+        assert (Hw0 : wrap (base + ix + 0) = base + ix) by (rewrite Z.add_0_r; exact (in_mem_wrap _ Hin)).
+        assert (R4 : readable (LDAI 0) (base + ix) base) by (cbn [readable]; rewrite Hw0; exact Hin).
+        pose proof (exec_instr C lab m1 p3 nxt (LDAI 0) (base + ix) base inp eq_refl Hi4 (K_C m1 HK1) R4 Hn) as T4.
+        cbn [sem fst snd] in T4. rewrite Hw0 in T4.
+        rewrite (HK1 (base + ix) (proj1 (in_mem_range _ Hin)) HnT), Hrd in T4.
+        exists base, m1. split; [|exact K1].
+        eapply taus_trans; [exact T1|]. eapply taus_trans; [exact T2|]. eapply taus_trans; [exact T3 | exact T4].
     - (* not *)
       destruct u; [discriminate|]. destruct r; [|discriminate].
-      destruct (cg venv pool size nslots e RA (n + 2) off) as [[c n1]|] eqn:Ec; [|discriminate]. cbn [obind] in Hcg.
+      destruct (cg venv pool size nslots aenv e RA (n + 2) off) as [[c n1]|] eqn:Ec; [|discriminate]. cbn [obind] in Hcg.
       inversion Hcg; subst code n'.
       destruct (eval_not _ _ _ _ _ _ He) as (f1 & t & He1 & ->).
-      destruct (IHe RA (n + 2) off c n1 Ec Hoff f1 st _ s He1 Hv) as (z & Hz & Hzr & L). inversion Hz; subst z.
+      destruct (IHe RA (n + 2) off c n1 Ec Hoff f1 st _ s He1 Hv Ha) as (z & Hz & Hzr & L). inversion Hz; subst z.
       exists (of_bool (negb t)). repeat split; [apply of_bool_range|].
       pose proof (lands_bool_tail_brz c _ n off Hoff L) as L2.
       replace (of_bool (negb t) mod W) with (if of_bool t mod W =? 0 then 1 else 0); [exact L2|].
@@ -627,57 +755,61 @@ Section Correct.
       { (* short-circuit operators *)
         destruct o; try discriminate.
         - (* or *)
-          destruct (cg venv pool size nslots l RA (n + 2) off) as [[cl n1]|] eqn:El; [|discriminate]. cbn [obind] in Hcg.
-          destruct (cg venv pool size nslots rr RA n1 off) as [[cr n2]|] eqn:Er; [|discriminate]. cbn [obind] in Hcg.
+          destruct (cg venv pool size nslots aenv l RA (n + 2) off) as [[cl n1]|] eqn:El; [|discriminate]. cbn [obind] in Hcg.
+          destruct (cg venv pool size nslots aenv rr RA n1 off) as [[cr n2]|] eqn:Er; [|discriminate]. cbn [obind] in Hcg.
           inversion Hcg; subst code n'.
           destruct (eval_or _ _ _ _ _ _ _ He) as (f1 & t & s1 & H1 & Hcase).
-          destruct (IHl RA _ off cl n1 El Hoff f1 st _ s1 H1 Hv) as (z & Hz & _ & Ll). inversion Hz; subst z.
+          destruct (IHl RA _ off cl n1 El Hoff f1 st _ s1 H1 Hv Ha) as (z & Hz & _ & Ll). inversion Hz; subst z.
           pose proof (vars_ok_same _ _ (eval_pure l Hpl _ _ _ _ H1) Hv) as Hv1.
+          pose proof (arrays_ok_same _ _ (eval_pure l Hpl _ _ _ _ H1) Ha) as Ha1.
           destruct Hcase as [(-> & -> & ->)|(-> & u & H2 & ->)].
           + exists 1. repeat split.
             pose proof (lands_or cl cr (of_bool true mod W) 0 n off Hoff Ll) as L. cbn in L. apply L. intros H; discriminate.
-          + destruct (IHr RA _ off cr n2 Er Hoff f1 s1 _ s H2 Hv1) as (z & Hz2 & _ & Lr). inversion Hz2; subst z.
+          + destruct (IHr RA _ off cr n2 Er Hoff f1 s1 _ s H2 Hv1 Ha1) as (z & Hz2 & _ & Lr). inversion Hz2; subst z.
             exists (of_bool u). repeat split; [apply of_bool_range|].
             pose proof (lands_or cl cr (of_bool false mod W) (of_bool u mod W) n off Hoff Ll (fun _ => Lr)) as L. exact L.
         - (* and *)
-          destruct (cg venv pool size nslots l RA (n + 1) off) as [[cl n1]|] eqn:El; [|discriminate]. cbn [obind] in Hcg.
-          destruct (cg venv pool size nslots rr RA n1 off) as [[cr n2]|] eqn:Er; [|discriminate]. cbn [obind] in Hcg.
+          destruct (cg venv pool size nslots aenv l RA (n + 1) off) as [[cl n1]|] eqn:El; [|discriminate]. cbn [obind] in Hcg.
+          destruct (cg venv pool size nslots aenv rr RA n1 off) as [[cr n2]|] eqn:Er; [|discriminate]. cbn [obind] in Hcg.
           inversion Hcg; subst code n'.
           destruct (eval_and _ _ _ _ _ _ _ He) as (f1 & t & s1 & H1 & Hcase).
-          destruct (IHl RA _ off cl n1 El Hoff f1 st _ s1 H1 Hv) as (z & Hz & _ & Ll). inversion Hz; subst z.
+          destruct (IHl RA _ off cl n1 El Hoff f1 st _ s1 H1 Hv Ha) as (z & Hz & _ & Ll). inversion Hz; subst z.
           pose proof (vars_ok_same _ _ (eval_pure l Hpl _ _ _ _ H1) Hv) as Hv1.
+          pose proof (arrays_ok_same _ _ (eval_pure l Hpl _ _ _ _ H1) Ha) as Ha1.
           destruct Hcase as [(-> & -> & ->)|(-> & u & H2 & ->)].
           + exists 0. repeat split.
             pose proof (lands_and cl cr (of_bool false mod W) 0 n off Hoff Ll) as L. cbn in L. apply L. intros H; exfalso; apply H; reflexivity.
-          + destruct (IHr RA _ off cr n2 Er Hoff f1 s1 _ s H2 Hv1) as (z & Hz2 & _ & Lr). inversion Hz2; subst z.
+          + destruct (IHr RA _ off cr n2 Er Hoff f1 s1 _ s H2 Hv1 Ha1) as (z & Hz2 & _ & Lr). inversion Hz2; subst z.
             exists (of_bool u). repeat split; [apply of_bool_range|].
             pose proof (lands_and cl cr (of_bool true mod W) (of_bool u mod W) n off Hoff Ll (fun _ => Lr)) as L. exact L. }
       (* arithmetic and relational operators: both operands are evaluated *)
       destruct (eval_binop _ _ o l rr st v s Lo He) as (f1 & f2 & x & y & st1 & sl & st2 & sr & z & S0 & E1 & S1 & E2 & S2 & Hb & ->).
       pose proof (vars_ok_same _ _ S0 Hv) as Hv1.
       pose proof (vars_ok_same _ _ (same_store_trans _ _ _ (eval_pure l Hpl _ _ _ _ E1) S1) Hv1) as Hv2.
+      pose proof (arrays_ok_same _ _ S0 Ha) as Ha1.
+      pose proof (arrays_ok_same _ _ (same_store_trans _ _ _ (eval_pure l Hpl _ _ _ _ E1) S1) Ha1) as Ha2.
       (* what the operand generators land *)
-      assert (HL : forall r1 n1 o1 c n2, off0 <= o1 -> cg venv pool size nslots l r1 n1 o1 = Some (c, n2) ->
+      assert (HL : forall r1 n1 o1 c n2, off0 <= o1 -> cg venv pool size nslots aenv l r1 n1 o1 = Some (c, n2) ->
                      in_int x = true /\ lands r1 c (x mod W) o1).
-      { intros r1 n1 o1 c n2 Ho1 Hc1. destruct (IHl r1 n1 o1 c n2 Hc1 Ho1 f1 st1 _ sl E1 Hv1) as (z0 & Hz0 & Hr0 & L).
+      { intros r1 n1 o1 c n2 Ho1 Hc1. destruct (IHl r1 n1 o1 c n2 Hc1 Ho1 f1 st1 _ sl E1 Hv1 Ha1) as (z0 & Hz0 & Hr0 & L).
         inversion Hz0; subst z0. split; assumption. }
-      assert (HR : forall r1 n1 o1 c n2, off0 <= o1 -> cg venv pool size nslots rr r1 n1 o1 = Some (c, n2) ->
+      assert (HR : forall r1 n1 o1 c n2, off0 <= o1 -> cg venv pool size nslots aenv rr r1 n1 o1 = Some (c, n2) ->
                      in_int y = true /\ lands r1 c (y mod W) o1).
-      { intros r1 n1 o1 c n2 Ho1 Hc1. destruct (IHr r1 n1 o1 c n2 Hc1 Ho1 f2 st2 _ sr E2 Hv2) as (z0 & Hz0 & Hr0 & L).
+      { intros r1 n1 o1 c n2 Ho1 Hc1. destruct (IHr r1 n1 o1 c n2 Hc1 Ho1 f2 st2 _ sr E2 Hv2 Ha2) as (z0 & Hz0 & Hr0 & L).
         inversion Hz0; subst z0. split; assumption. }
       assert (Harith : forall opi code0 n0 n0', opi = ADD \/ opi = SUB ->
-                arith_code size nslots opi (simple rr) (cg venv pool size nslots l RA) (cg venv pool size nslots rr RA)
-                           (cg venv pool size nslots rr RB) n0 off = Some (code0, n0') ->
+                arith_code size nslots opi (simple rr) (cg venv pool size nslots aenv l RA) (cg venv pool size nslots aenv rr RA)
+                           (cg venv pool size nslots aenv rr RB) n0 off = Some (code0, n0') ->
                 in_int x = true /\ in_int y = true /\ lands RA code0 (opw opi (x mod W) (y mod W)) off).
       { intros opi code0 n0 n0' Hop Hc.
         assert (Hxy : in_int x = true /\ in_int y = true).
         { unfold arith_code in Hc. destruct (simple rr).
-          - destruct (cg venv pool size nslots l RA n0 off) as [[cl n1]|] eqn:El; [|discriminate]. cbn [obind] in Hc.
-            destruct (cg venv pool size nslots rr RB n1 off) as [[cr n2]|] eqn:Er; [|discriminate].
+          - destruct (cg venv pool size nslots aenv l RA n0 off) as [[cl n1]|] eqn:El; [|discriminate]. cbn [obind] in Hc.
+            destruct (cg venv pool size nslots aenv rr RB n1 off) as [[cr n2]|] eqn:Er; [|discriminate].
             split; [exact (proj1 (HL _ _ _ _ _ Hoff El)) | exact (proj1 (HR _ _ _ _ _ Hoff Er))].
           - destruct ((0 <=? off) && (off <? nslots)); [|discriminate].
-            destruct (cg venv pool size nslots rr RA n0 off) as [[cr n1]|] eqn:Er; [|discriminate]. cbn [obind] in Hc.
-            destruct (cg venv pool size nslots l RA n1 (off + 1)) as [[cl n2]|] eqn:El; [|discriminate].
+            destruct (cg venv pool size nslots aenv rr RA n0 off) as [[cr n1]|] eqn:Er; [|discriminate]. cbn [obind] in Hc.
+            destruct (cg venv pool size nslots aenv l RA n1 (off + 1)) as [[cl n2]|] eqn:El; [|discriminate].
             assert (Ho1 : off0 <= off + 1) by lia.
             split; [exact (proj1 (HL _ _ _ _ _ Ho1 El)) | exact (proj1 (HR _ _ _ _ _ Hoff Er))]. }
         destruct Hxy as [Hx Hy]. repeat split; try assumption.
@@ -697,21 +829,21 @@ Section Correct.
       + (* = *)
         cbn [binop_ans] in Hb. inversion Hb; subst z. exists (of_bool (x =? y)). repeat split; [apply of_bool_range|].
         destruct (is_zero l) eqn:Zl.
-        * destruct (cg venv pool size nslots rr RA n off) as [[c n1]|] eqn:Er; [|discriminate]. cbn [obind] in Hcg.
+        * destruct (cg venv pool size nslots aenv rr RA n off) as [[c n1]|] eqn:Er; [|discriminate]. cbn [obind] in Hcg.
           inversion Hcg; subst code n'. destruct (HR _ _ _ _ _ Hoff Er) as [Hy L].
           pose proof (is_zero_eval l _ _ _ _ Zl E1) as ->.
           pose proof (lands_bool_tail_brz c _ n1 off Hoff L) as L2. rewrite (word_zero y Hy) in L2.
           replace (of_bool (0 =? y) mod W) with (if y =? 0 then 1 else 0); [exact L2|].
           rewrite (Z.eqb_sym 0 y). destruct (y =? 0); reflexivity.
         * destruct (is_zero rr) eqn:Zr.
-          -- destruct (cg venv pool size nslots l RA n off) as [[c n1]|] eqn:El; [|discriminate]. cbn [obind] in Hcg.
+          -- destruct (cg venv pool size nslots aenv l RA n off) as [[c n1]|] eqn:El; [|discriminate]. cbn [obind] in Hcg.
              inversion Hcg; subst code n'. destruct (HL _ _ _ _ _ Hoff El) as [Hx L].
              pose proof (is_zero_eval rr _ _ _ _ Zr E2) as ->.
              pose proof (lands_bool_tail_brz c _ n1 off Hoff L) as L2. rewrite (word_zero x Hx) in L2.
              replace (of_bool (x =? 0) mod W) with (if x =? 0 then 1 else 0); [exact L2|].
              destruct (x =? 0); reflexivity.
-          -- destruct (arith_code size nslots SUB (simple rr) (cg venv pool size nslots l RA) (cg venv pool size nslots rr RA)
-                                  (cg venv pool size nslots rr RB) n off) as [[c n1]|] eqn:Ea; [|discriminate]. cbn [obind] in Hcg.
+          -- destruct (arith_code size nslots SUB (simple rr) (cg venv pool size nslots aenv l RA) (cg venv pool size nslots aenv rr RA)
+                                  (cg venv pool size nslots aenv rr RB) n off) as [[c n1]|] eqn:Ea; [|discriminate]. cbn [obind] in Hcg.
              inversion Hcg; subst code n'. destruct (Harith SUB c n n1 (or_intror eq_refl) Ea) as (Hx & Hy & L).
              cbn [opw] in L. rewrite wrap_sub in L.
              pose proof (lands_bool_tail_brz c _ n1 off Hoff L) as L2. rewrite (word_eq x y Hx Hy) in L2.
@@ -722,14 +854,14 @@ Section Correct.
         apply andb_prop in Ed. destruct Ed as [Ed _].
         exists (of_bool (x <? y)). repeat split; [apply of_bool_range|].
         destruct (is_zero rr) eqn:Zr.
-        * destruct (cg venv pool size nslots l RA n off) as [[c n1]|] eqn:El; [|discriminate]. cbn [obind] in Hcg.
+        * destruct (cg venv pool size nslots aenv l RA n off) as [[c n1]|] eqn:El; [|discriminate]. cbn [obind] in Hcg.
           inversion Hcg; subst code n'. destruct (HL _ _ _ _ _ Hoff El) as [Hx L].
           pose proof (is_zero_eval rr _ _ _ _ Zr E2) as ->.
           pose proof (lands_bool_tail_brn c _ n1 off Hoff L) as L2. rewrite (word_negative x Hx) in L2.
           replace (of_bool (x <? 0) mod W) with (if x <? 0 then 1 else 0); [exact L2|].
           destruct (x <? 0); reflexivity.
-        * destruct (arith_code size nslots SUB (simple rr) (cg venv pool size nslots l RA) (cg venv pool size nslots rr RA)
-                               (cg venv pool size nslots rr RB) n off) as [[c n1]|] eqn:Ea; [|discriminate]. cbn [obind] in Hcg.
+        * destruct (arith_code size nslots SUB (simple rr) (cg venv pool size nslots aenv l RA) (cg venv pool size nslots aenv rr RA)
+                               (cg venv pool size nslots aenv rr RB) n off) as [[c n1]|] eqn:Ea; [|discriminate]. cbn [obind] in Hcg.
           inversion Hcg; subst code n'. destruct (Harith SUB c n n1 (or_intror eq_refl) Ea) as (Hx & Hy & L).
           cbn [opw] in L. rewrite wrap_sub in L.
           pose proof (lands_bool_tail_brn c _ n1 off Hoff L) as L2. rewrite (word_negative (x - y) Ed) in L2.
@@ -740,29 +872,29 @@ Section Correct.
   Qed.
 
   (* the statement used in Properties_C01 *)
-  Corollary expr_fragment : forall e n off code n', cg venv pool size nslots e RA n off = Some (code, n') -> off0 <= off ->
-    forall f st z s, eval f ge e st = Ret (Vint z) s -> vars_ok st ->
+  Corollary expr_fragment : forall e n off code n', cg venv pool size nslots aenv e RA n off = Some (code, n') -> off0 <= off ->
+    forall f st z s, eval f ge e st = Ret (Vint z) s -> vars_ok st -> arrays_ok st ->
     forall pos nxt a b inp, code_at C lab pos code nxt -> 0 <= pos -> nxt < W ->
     exists k s', Isa.run k (mk pos a b 0 mr) inp [] = ([], inp, s', Cut) /\
                  pc s' = nxt /\ areg s' = z mod W /\ oreg s' = 0 /\ keeps off mr (mem s').
   Proof.
-    intros e n off code n' Hcg Hoff f st z s He Hv pos nxt a b inp Hc Hp Hn.
-    destruct (cg_correct e RA n off code n' Hcg Hoff f st (Vint z) s He Hv) as (z' & Hz & _ & L). inversion Hz; subst z'.
+    intros e n off code n' Hcg Hoff f st z s He Hv Ha pos nxt a b inp Hc Hp Hn.
+    destruct (cg_correct e RA n off code n' Hcg Hoff f st (Vint z) s He Hv Ha) as (z' & Hz & _ & L). inversion Hz; subst z'.
     destruct (L mr pos nxt a b inp K_mr Hc Hp Hn) as (b' & m' & [k Hk] & Kp).
     exists k, (mk nxt (z mod W) b' 0 m'). repeat split; [exact Hk | exact Kp].
   Qed.
 
   (* the form used by the statement proofs *)
-  Corollary expr_runs : forall e n off code n', cg venv pool size nslots e RA n off = Some (code, n') -> off0 <= off ->
-    forall f st v s, eval f ge e st = Ret v s -> vars_ok st ->
+  Corollary expr_runs : forall e n off code n', cg venv pool size nslots aenv e RA n off = Some (code, n') -> off0 <= off ->
+    forall f st v s, eval f ge e st = Ret v s -> vars_ok st -> arrays_ok st ->
     same_store st s /\
     exists z, v = Vint z /\ in_int z = true /\
       forall pos nxt a b inp, code_at C lab pos code nxt -> 0 <= pos -> nxt < W ->
       exists b' m', taus inp (mk pos a b 0 mr) (mk nxt (z mod W) b' 0 m') /\ keeps off mr m'.
   Proof.
-    intros e n off code n' Hcg Hoff f st v s He Hv.
+    intros e n off code n' Hcg Hoff f st v s He Hv Ha.
     split; [exact (eval_pure e (cg_pure _ _ _ _ _ Hcg) _ _ _ _ He)|].
-    destruct (cg_correct e RA n off code n' Hcg Hoff f st v s He Hv) as (z & Hz & Hr & L).
+    destruct (cg_correct e RA n off code n' Hcg Hoff f st v s He Hv Ha) as (z & Hz & Hr & L).
     exists z. repeat split; try assumption.
     intros pos nxt a b inp Hc Hp Hn. exact (L mr pos nxt a b inp K_mr Hc Hp Hn).
   Qed.
